@@ -36,6 +36,8 @@ type r2State struct {
 	getWaitCh map[string]bool
 	// functions whose error a library caller compares with context.Canceled (R17)
 	cmpCanceled map[*types.Func]string
+	// the implementations of broadcast()/getWaitCh() inside package broadcast
+	bm, gm *types.Func
 }
 
 func (s *r2State) note(rule, construct string, pos token.Pos, bad bool, okDetail, badDetail string, p *core.Path) {
@@ -145,6 +147,9 @@ func runR2(c *Ctx) {
 		}
 	}
 	s := &r2State{c: c, agg: map[string]*Obligation{}, waiters: map[string]int{}, getWaitCh: map[string]bool{}}
+	if c.Prog.LookupFunc("broadcast", "Broadcast", "HoldLock") != nil {
+		s.bm, s.gm = sectionMethods(c)
+	}
 	for _, e := range entriesOf(c) {
 		e := e
 		cfg := &core.Config{Follow: sectionFollow(c, entryPkgPath(e)), EmitAccess: true}
@@ -208,6 +213,7 @@ func (s *r2State) waiterPath(e core.Entry, p *core.Path) {
 	lastAssign := map[*types.Var]int{}
 	reads := map[*types.Var][]int{}
 	hasWaiter := false
+	inBroadcast := RelPkg(entryPkgPath(e)) == "broadcast"
 	var ctxParam *types.Var
 	if e.Decl != nil {
 		ctxParam = paramWhere(e.Decl, isContextType)
@@ -254,9 +260,24 @@ func (s *r2State) waiterPath(e core.Entry, p *core.Path) {
 		s.note("R2a", construct, ev.Pos, bad, "the state sampled for the decision to wait and the wait channel come from the same critical section on every path", why, p)
 	}
 	for i, ev := range p.Events {
+		// inside package broadcast: a direct call of the getWaitCh implementation under the mutex
+		if inBroadcast && s.gm != nil && (ev.Kind == core.KEnter || ev.Kind == core.KCall) && ev.Callee != nil && ev.Callee.Origin() == s.gm && ev.Call != nil {
+			var sc *r2Section
+			for _, o := range open {
+				if sc == nil || o.acq > sc.acq {
+					sc = o
+				}
+			}
+			if sc != nil {
+				wt.onGet(i, ev)
+				getSec[i] = sc
+				s.getWaitCh[c.Prog.Pos(ev.Pos)] = true
+			}
+		}
 		switch ev.Kind {
 		case core.KAcquire:
-			if core.LockKindOf(ev.Lock.Type()) == core.BcastLock {
+			// (inside package broadcast a section may be the mutex taken by hand)
+			if core.LockKindOf(ev.Lock.Type()) == core.BcastLock || inBroadcast {
 				sc := &r2Section{lock: ev.Lock, acq: i, rel: -1, frame: ev.Frame}
 				sections = append(sections, sc)
 				open[ev.Lock] = sc
@@ -270,6 +291,7 @@ func (s *r2State) waiterPath(e core.Entry, p *core.Path) {
 			wt.onGet(i, ev)
 			getSec[i] = open[ev.Lock]
 			s.getWaitCh[c.Prog.Pos(ev.Pos)] = true
+
 		case core.KAssign:
 			if ev.FieldInit {
 				break
